@@ -418,10 +418,15 @@ func H_C03_multi() {
 	q2 := []string{"dog", "fox"}[vChoose("second_query", 2)] // the same query string twice counts twice
 	// (per-query lists are themselves cut to k, so the rule is stated for k covering every match: ties at a per-query k-th place are outside)
 	k := []int{0, 10, -1}[vChoose("k", 3)]
-	res, err := ix.NewSearch().WithQuery(q1, q2).WithK(k).WithScoreAggregation(agg).Execute()
+	queries := []string{q1, q2}
+	switch vChoose("third_query", 3) { // three (and four) queries: the rule is applied once over all per-query scores of a document
+	case 1:
+		queries = append(queries, "tick")
+	case 2:
+		queries = append(queries, "dog", "tick fox")
+	}
+	res, err := ix.NewSearch().WithQuery(queries...).WithK(k).WithScoreAggregation(agg).Execute()
 	vAssert(err == nil, "search-ok")
-	r1, _ := ix.NewSearch().WithQuery(q1).WithK(0).Execute()
-	r2, _ := ix.NewSearch().WithQuery(q2).WithK(0).Execute()
 	type acc struct {
 		id uint32
 		ss []float32
@@ -441,8 +446,11 @@ func H_C03_multi() {
 			}
 		}
 	}
-	add(r1)
-	add(r2)
+	for _, q := range queries {
+		rq, eq := ix.NewSearch().WithQuery(q).WithK(0).Execute()
+		vAssert(eq == nil, "search-ok")
+		add(rq)
+	}
 	want := len(A)
 	if k > 0 && k < want {
 		want = k
